@@ -229,5 +229,9 @@ def check(ctx):
     rule_select(ctx, F, "R1")
     rule_chain(ctx, F, "R2", "R3")
     rule_registration(ctx, F, "R4")
+    # "blended from the current values, so the component does not jump": the blended start value is what evaluation
+    # yields before and at the start of the new timeline (prepare_frame phase table, override scope: C10/R1-R2)
+    from rules import c10
+    c10.rules_override_scope(ctx, prefix="R5")
     ctx.notes.append("not decided: change-detection and cross-frame ordering semantics of bevy's scheduler")
     ctx.assumptions += ["bevy Query::get_mut(entity) yields the entity's own components", "dyn_clone::clone_box is a faithful clone"]
